@@ -24,6 +24,7 @@ import (
 
 	"github.com/emersion/go-imap/v2"
 	"github.com/emersion/go-imap/v2/imapclient"
+	"github.com/emersion/go-sasl"
 
 	"verif/harness/vh"
 )
@@ -34,6 +35,7 @@ type cfgT struct {
 	Rev2     bool `json:"rev2"`
 	UTF8Adv  bool `json:"utf8adv"`
 	UTF8     bool `json:"utf8"`
+	SaslIR   bool `json:"saslir"`
 }
 
 type caseT struct {
@@ -288,6 +290,56 @@ func (s *server) serveCommand(react string, record bool) (tag string, refused bo
 	}
 }
 
+// runAuthenticate: AUTHENTICATE PLAIN.  Recorded: whether the initial response came on the command line (token
+// "ir") or only after the empty challenge.
+func (s *server) runAuthenticate(cl *imapclient.Client, sc *vh.Conn, caps string) ([]map[string]interface{}, error) {
+	done := make(chan string, 1)
+	go func() { done <- statusOf(cl.Authenticate(sasl.NewPlainClient("", "u", "p"))) }()
+	line, err := s.readLine()
+	if err != nil {
+		s.ev(map[string]interface{}{"ev": "Broken", "err": "reading command: " + err.Error()})
+		return s.evs, nil
+	}
+	f := strings.Fields(strings.TrimRight(line, "\r\n"))
+	if len(f) < 3 || f[1] != "AUTHENTICATE" || f[2] != "PLAIN" || len(f) > 4 {
+		s.ev(map[string]interface{}{"ev": "Broken", "err": fmt.Sprintf("malformed AUTHENTICATE: %q", line)})
+		return s.evs, nil
+	}
+	toks := []token{}
+	if len(f) == 4 {
+		toks = append(toks, token{Rep: "ir", N: len(f[3])})
+	}
+	s.ev(map[string]interface{}{"ev": "Send", "tokens": toks, "sync": false})
+	if len(f) == 3 {
+		sc.Write([]byte("+ \r\n"))
+		if _, err := s.readLine(); err != nil {
+			s.ev(map[string]interface{}{"ev": "Broken", "err": "reading the SASL response: " + err.Error()})
+			return s.evs, nil
+		}
+	}
+	sc.Write([]byte(f[0] + " OK [CAPABILITY " + caps + "] authenticated\r\n"))
+	select {
+	case st := <-done:
+		s.ev(map[string]interface{}{"ev": "Complete", "status": st})
+	case <-time.After(3 * time.Second):
+		s.ev(map[string]interface{}{"ev": "Complete", "status": "HANG"})
+		return s.evs, nil
+	}
+	usable := false
+	nd := make(chan error, 1)
+	go func() { nd <- cl.Noop().Wait() }()
+	if tag2, _, err := s.serveCommand("grant", false); err == nil {
+		sc.Write([]byte(tag2 + " OK noop\r\n"))
+		select {
+		case err := <-nd:
+			usable = err == nil
+		case <-time.After(3 * time.Second):
+		}
+	}
+	s.ev(map[string]interface{}{"ev": "Usable", "ok": usable})
+	return s.evs, nil
+}
+
 func statusOf(err error) string {
 	if err == nil {
 		return "OK"
@@ -314,6 +366,9 @@ func runCase(cs *caseT) ([]map[string]interface{}, error) {
 	}
 	if cs.Cfg.UTF8Adv {
 		caps += " UTF8=ACCEPT ENABLE"
+	}
+	if cs.Cfg.SaslIR {
+		caps += " SASL-IR"
 	}
 	sc.Write([]byte("* OK [CAPABILITY " + caps + "] ready\r\n"))
 	cl := imapclient.New(cc, nil)
@@ -350,6 +405,9 @@ func runCase(cs *caseT) ([]map[string]interface{}, error) {
 		if err != nil {
 			return nil, fmt.Errorf("the client did not ask for the capabilities after LOGIN: %v", err)
 		}
+	}
+	if cs.Case.Cmd == "AUTHENTICATE" {
+		return s.runAuthenticate(cl, sc, caps)
 	}
 	// the API call runs in its own goroutine: it blocks while the command is being sent
 	done := make(chan string, 1)
@@ -508,6 +566,7 @@ func main() {
 		for i := 0; i < n; i++ {
 			cs := &caseT{}
 			cs.Cfg = cfgT{LitPlus: r.Intn(3) == 0, Rev2: r.Intn(3) == 0, UTF8: r.Intn(3) == 0}
+			// (SASL-IR matters to AUTHENTICATE only, which the random cases do not issue)
 			cs.Cfg.LitMinus = cs.Cfg.LitPlus || cs.Cfg.Rev2 || r.Intn(2) == 0
 			cs.Cfg.UTF8Adv = cs.Cfg.UTF8 || r.Intn(2) == 0
 			cs.Case.Cmd = cmds[r.Intn(len(cmds))]
